@@ -302,7 +302,19 @@ def check_complex_domain(F, run, roots):
     fixed sign: every partial function must be applied in the complex type (or to a magnitude), else a negative discriminant gives NaN."""
     dp = "Polynomial::roots"
     n = 0
-    for c in walk(roots["body"]):
+    # `roots` and the crate functions it calls (helpers extracted from it), transitively
+    todo, seen, nodes = [roots], {id(roots)}, []
+    while todo:
+        bb = todo.pop()
+        for c in walk(bb["body"]):
+            nodes.append(c)
+            d = callee(c) if c.get("k") == "Call" else (c.get("def") if c.get("k") == "MCall" else None)
+            for hb in (F.by_path.get(d, []) if d else []):
+                if id(hb) not in seen and hb["file"].startswith("src/polynomial") and hb["name"] not in ("roots", "divide", "evaluate", "evaluate_derivative", "derivative", "make_complex") \
+                        and isinstance(hb.get("body"), dict):
+                    seen.add(id(hb))
+                    todo.append(hb)
+    for c in nodes:
         if c.get("k") != "MCall" or c["name"] not in PARTIAL_ON_REALS:
             continue
         n += 1
@@ -343,12 +355,161 @@ def check_make_complex(F, run):
                   sample="make_complex keeps (coefficients, tolerance)")
 
 
+SQ = sp.Function("SQRT")
+
+
+class LagSem(vecint.VInterp):
+    """One Laguerre iteration with p(z), p'(z), p''(z) as symbols, the square root opaque (SQRT(E), with SQRT(E)² = E applied by the rule) and the
+    magnitude comparison of the two denominators a path decision."""
+    def ev_MCall(self, n):
+        if n["name"] == "evaluate" and (n.get("def") or "").startswith("polynomial::Polynomial"):
+            return self.shared["P"]
+        if n["name"] == "evaluate_derivative" and (n.get("def") or "").startswith("polynomial::Polynomial"):
+            return (self.shared["dP"], self.shared["ddP"])
+        if n["name"] == "sqrt" and not n["args"]:
+            return SQ(sp.expand(self.num(self.deref(self.ev(n["recv"])), n)))
+        if n["name"] == "abs" and not n["args"]:
+            return sp.Abs(self.num(self.deref(self.ev(n["recv"])), n))
+        if n["name"] == "derivative" and (n.get("def") or "").startswith("polynomial::Polynomial"):
+            return sym.Opaque("derivative polynomial")
+        return vecint.VInterp.ev_MCall(self, n)
+
+    def ev_Call(self, n):
+        d = callee(n) or ""
+        if d.split("::")[-1] in sym.FROM_PRIM and "Complex" in (n.get("ty") or ""):
+            return sym.Variant("Some", [self.ev(n["args"][0])])
+        return vecint.VInterp.ev_Call(self, n)
+
+
+def check_laguerre_step_semantic(F, run, roots):
+    """R14.6 without names: the loop (wherever it lives) that calls `evaluate_derivative`; its iterate is the local it updates and evaluates the
+    polynomial at; one iteration from z (not yet converged) must give z − n/(G ± S) with G = p'/p, S² = (n−1)(n·H − G²), H = G² − p''/p, the
+    sign being the one whose denominator the path condition says is the larger."""
+    dp = "Polynomial::roots"
+    cands = []
+    for b in F.bodies:
+        if not b["file"].startswith("src/polynomial") or not isinstance(b.get("body"), dict):
+            continue
+        for n in walk(b["body"]):
+            if n.get("k") in ("While", "For", "Loop") and RootsInterp.is_laguerre_loop(n):
+                cands.append((b, n))
+    if len(cands) != 1:
+        run.broken("R14.6", dp, "laguerre-loop", F.loc(roots), "expected one loop that calls evaluate_derivative, found %d" % len(cands))
+        return
+    b, loop = cands[0]
+    run.analysed(b)
+    where = F.loc(b, loop)
+    written, at = {}, set()
+    for x in walk(loop["body"], into_closures=False):
+        if x.get("k") in ("Assign", "AssignOp") and peel(x["l"]).get("k") == "Local":
+            written[peel(x["l"])["id"]] = peel(x["l"])["name"]
+        if x.get("k") == "MCall" and x["name"] in ("evaluate", "evaluate_derivative"):
+            for a in x["args"]:
+                if peel(a).get("k") == "Local":
+                    at.add(peel(a)["id"])
+    iterate = [i for i in written if i in at]
+    if len(iterate) != 1:
+        run.broken("R14.6", dp, "laguerre-step", where, "cannot identify the iterate of the Laguerre loop")
+        return
+    deg = 5
+    P, dP, ddP, Z = sp.Symbol("P"), sp.Symbol("dP"), sp.Symbol("ddP"), sp.Symbol("Zk")
+    nn = sp.Integer(deg)
+    G = dP / P
+    H = G ** 2 - ddP / P
+    E_want = sp.expand((nn - 1) * (nn * H - G ** 2))
+    n_paths = 0
+    for choice in (True, False):
+        it = LagSem(F, b)
+        it.shared.update({"P": P, "dP": dP, "ddP": ddP})
+        asked = []
+
+        def hook(i_, node, c, choice=choice, asked=asked):
+            if isinstance(c, sp.Basic) and c.has(sp.Abs) and c.has(SQ):
+                asked.append(c)
+                return choice
+            if isinstance(c, sp.Basic) and c.has(P) and not c.has(SQ):
+                return False                    # the residual test: not converged yet
+            return PI.generic_decide(c)
+        it.if_hook = hook
+        # bind what the loop body reads: self = a polynomial of the degree, every other local a symbol of its name, the iterate = Z
+        from bsa.hir import pat_binds
+        for prm in b["params"]:
+            for i_, nm in pat_binds(prm):
+                it.env[i_] = PI.poly(PI.symbols("c", deg + 1)) if nm == "self" else (PI.TOL if nm == "tol" else sp.Symbol(nm))
+                it.names[i_] = nm
+        for x in walk(b["body"]):
+            if x.get("k") == "LetS":
+                for i_, nm in pat_binds(x["pat"]):
+                    if i_ not in it.env:
+                        it.env[i_], it.names[i_] = sp.Symbol(nm), nm
+        it.env[iterate[0]] = Z
+        # loop-invariant lets in front of the loop (the degree as a complex number, the derivative polynomial): evaluate what can be evaluated
+        for st in cfg.preceding_statements(b["body"], loop):
+            if st.get("k") == "LetS" and "init" in st and "Mut)" not in st["pat"].get("mode", ""):
+                try:
+                    it.run_stmt(st)
+                except Exception:
+                    pass
+        it.env[iterate[0]] = Z
+        if loop.get("k") == "For":
+            for i_, nm in pat_binds(loop["pat"]):
+                it.env[i_], it.names[i_] = sp.Integer(0), nm
+        try:
+            it.ev(loop["body"])
+        except (sym.Break, sym.Continue):
+            pass
+        except sym.Return as r:
+            run.fail("R14.6", dp, "laguerre-step", where, "one not-yet-converged iteration leaves the function with %r" % (r.value,))
+            return
+        except (sym.Unsupported, vecint.IndexPanic) as e:
+            run.broken("R14.6", dp, "laguerre-step", where, "cannot interpret one Laguerre iteration: %s" % e)
+            return
+        znew = it.env.get(iterate[0])
+        if not isinstance(znew, sp.Basic) or len(asked) != 1:
+            run.fail("R14.6", dp, "sign-choice-site", where, "expected one choice between the two denominators by magnitude, found %d" % len(asked))
+            return
+        n_paths += 1
+        a = sp.together(Z - znew)
+        den = sp.together(nn / a)                       # must be G ± SQRT(E)
+        roots_ = list(den.atoms(SQ))
+        if not run.check(len(roots_) == 1, "R14.6", dp, "laguerre-formula", where, "the step %s does not have the form n/(G ± √·)" % str(a)[:120]):
+            return
+        E = sp.expand(roots_[0].args[0])
+        okE = sym.is_zero(sp.expand(sp.together(E - E_want)))
+        q = sp.together(den - G)                        # ±SQRT(E)
+        Dv = sp.Symbol("D_")
+        qn = sp.together(q.subs(roots_[0], Dv))
+        okq = sym.is_zero(sp.together(qn - Dv)) or sym.is_zero(sp.together(qn + Dv))
+        run.check(okE and okq, "R14.6", dp, "laguerre-formula", where,
+                  "the step is not n/(G ± s) with G = p'/p and s² = (n−1)(n·H − G²), H = G² − p''/p: denominator %s, radicand %s" % (str(den)[:100], str(E)[:100]),
+                  sample="a = n/(G ± s), s² = (n−1)(nH − G²)")
+        # the comparison decided on this path says which of |G+s|, |G−s| is the larger: the denominator used must be that one
+        c = asked[0]
+        lhs = rhs = None
+        if isinstance(c, (sp.StrictGreaterThan, sp.GreaterThan)):
+            big, small = (c.lhs, c.rhs) if choice else (c.rhs, c.lhs)
+        elif isinstance(c, (sp.StrictLessThan, sp.LessThan)):
+            big, small = (c.rhs, c.lhs) if choice else (c.lhs, c.rhs)
+        else:
+            big = small = None
+        good = False
+        if big is not None and isinstance(big, sp.Abs):
+            good = sym.is_zero(sp.together(big.args[0] - den)) or sym.is_zero(sp.together(big.args[0] + den))
+        run.check(good, "R14.6", dp, "sign-maximises-denominator", where,
+                  "under [%s is %s] the step divides by %s, which the comparison does not identify as the denominator of larger magnitude: the Laguerre step must "
+                  "take the sign that maximises |G ± s| (the other one can be arbitrarily close to 0)" % (str(c)[:120], choice, str(den)[:80]),
+                  sample="denominator = the larger of |G+s|, |G−s| (%s branch)" % choice)
+    run.floor("R14.6", dp, "sign branches explored", n_paths, 2, where)
+
+
 def check_laguerre_step(F, run, roots):
     dp = "Polynomial::roots"
     loops = [n for n in walk(roots["body"]) if n.get("k") == "While" and any(x.get("k") == "MCall" and x["name"] == "evaluate_derivative" for x in walk(n["body"]))]
-    if len(loops) != 1:
-        run.broken("R14.6", dp, "laguerre-loop", F.loc(roots), "Laguerre loop not found")
-        return
+    have = {x["pat"].get("name") for x in walk(roots["body"]) if x.get("k") == "LetS" and x["pat"].get("k") == "Bind"}
+    if len(loops) != 1 or not ({"guess", "deriv_quotient", "sqrt"} <= have):
+        # the instance table of the pinned tree (loop in `roots`, locals `guess` / `deriv_quotient` / `sqrt`) does not apply: decide the same
+        # obligations without names
+        return check_laguerre_step_semantic(F, run, roots)
     loop = loops[0]
     where = F.loc(roots, loop)
     deg = 5
